@@ -608,4 +608,70 @@ theorem Wiring.mem_runPairs (w : Wiring) (ch : List Nat) (s : Sig) (r : Recv) :
     simp only [Wiring.runPairs, List.mem_append, List.mem_map, Prod.mk.injEq, ih, List.mem_cons]
     cases a <;> simp [Wiring.inList] <;> grind
 
+/-! ## Part A2 — callbacks that raise or come back to their trigger -/
+
+theorem Acc.flags_append (lab : Nat → Label) (a : Acc) (l1 l2 : List Ev) :
+    a.flags lab (l1 ++ l2) = a.flags lab l1 ++ (a.run lab l1).flags lab l2 := by
+  induction l1 generalizing a with
+  | nil => rfl
+  | cons ev rest ih => simp [Acc.flags, Acc.run, ih]
+
+theorem Acc.flags_length (lab : Nat → Label) (a : Acc) (l : List Ev) : (a.flags lab l).length = l.length := by
+  induction l generalizing a with
+  | nil => rfl
+  | cons ev rest ih => simp [Acc.flags, ih]
+
+theorem Acc.flags_get (lab : Nat → Label) (a : Acc) (hist : List Ev) (k : Nat) (hk : k < hist.length) :
+    (a.flags lab hist)[k]? = some (a.firedAt lab hist k) := by
+  induction hist generalizing a k with
+  | nil => simp at hk
+  | cons ev rest ih =>
+    cases k with
+    | zero => simp [Acc.flags, Acc.firedAt, Acc.before, Acc.run]
+    | succ k =>
+      have := ih (a.step lab ev).1 k (by simpa using hk)
+      simp only [Acc.flags, List.getElem?_cons_succ, this]
+      simp [Acc.firedAt, Acc.before, Acc.run]
+
+/-- with the reset before the callback, whatever the callbacks do (return, raise, come back to the trigger, to
+any depth): the trigger has simply lived through the flat history of the events that were performed -/
+theorem execActs_flat (lab : Nat → Label) (n : Nat) : ∀ (a : Acc) (acts : List Act),
+    (execActs true lab n a acts).acc = a.run lab (execActs true lab n a acts).evs ∧
+    (execActs true lab n a acts).fires = a.flags lab (execActs true lab n a acts).evs := by
+  induction n with
+  | zero => intro a acts; simp [execActs, Acc.run, Acc.flags]
+  | succ n ih =>
+    intro a acts
+    cases acts with
+    | nil => simp [execActs, Acc.run, Acc.flags]
+    | cons x rest =>
+      obtain ⟨ev, boom, inner⟩ := x
+      simp only [execActs, ↓reduceIte]
+      by_cases hf : (a.step lab ev).2 = true
+      · simp only [hf, ↓reduceIte]
+        obtain ⟨hi1, hi2⟩ := ih (a.step lab ev).1 inner
+        by_cases hr : ((execActs true lab n (a.step lab ev).1 inner).raised || boom) = true
+        · simp only [hr, ↓reduceIte, Acc.run, Acc.flags, hf]
+          exact ⟨hi1, by rw [hi2]⟩
+        · simp only [hr, Bool.false_eq_true, ↓reduceIte, Acc.run, Acc.flags, hf]
+          obtain ⟨hr1, hr2⟩ := ih (execActs true lab n (a.step lab ev).1 inner).acc rest
+          rw [Acc.run_append, Acc.flags_append, ← hi1, ← hi2, ← hr1, ← hr2]
+          exact ⟨rfl, rfl⟩
+      · simp only [hf, Bool.false_eq_true, ↓reduceIte, Acc.run, Acc.flags]
+        obtain ⟨hr1, hr2⟩ := ih (a.step lab ev).1 rest
+        exact ⟨hr1, by rw [hr2]⟩
+
+theorem execTop_flat (lab : Nat → Label) (n : Nat) (script : List Act) : ∀ (a : Acc),
+    (execTop true lab n a script).acc = a.run lab (execTop true lab n a script).evs ∧
+    (execTop true lab n a script).fires = a.flags lab (execTop true lab n a script).evs := by
+  induction script with
+  | nil => intro a; simp [execTop, Acc.run, Acc.flags]
+  | cons x rest ih =>
+    intro a
+    obtain ⟨h1, h2⟩ := execActs_flat lab n a [x]
+    obtain ⟨h3, h4⟩ := ih (execActs true lab n a [x]).acc
+    simp only [execTop]
+    rw [Acc.run_append, Acc.flags_append, ← h1, ← h2, ← h3, ← h4]
+    exact ⟨rfl, rfl⟩
+
 end PwVerif.Signal
